@@ -68,6 +68,7 @@ type World struct {
 	AfterTx    []func(w *World, tx *TxResult)
 	AfterBlock []func(w *World)
 	BeforeTx   []func(w *World, name string)
+	BeforeBlock []func(w *World) // before the EndBlock of the current block
 
 	HaltOnBlockPanic bool // C37: report instead of aborting quietly
 	WantDigest       bool // compute TxResult.DigestBefore/After (expensive)
@@ -114,8 +115,15 @@ func NewWorld(r *simrt.Run) *World {
 		w.storeKey = sk.StoreKeysByName()
 	}
 	r.Logf("genesis %s height=%d", start.Format(time.RFC3339), ctx.BlockHeight())
+	for _, h := range worldInitHooks {
+		h(w)
+	}
 	return w
 }
+
+// worldInitHooks run on every World created while they are installed: properties that are decided
+// on the histories of another property's generator (C09, C37) attach their monitors this way.
+var worldInitHooks []func(w *World)
 
 // ---------- accounts ----------
 
@@ -186,6 +194,9 @@ func (w *World) guarded(phase string, f func()) {
 
 // NextBlock ends the current block and begins the next one dt later.
 func (w *World) NextBlock(dt time.Duration) {
+	for _, h := range w.BeforeBlock {
+		h(w)
+	}
 	nBefore := len(w.Ctx.EventManager().Events())
 	w.guarded("EndBlock", func() { testkeeper.EndBlock(w.Ctx, w.K) })
 	if evs := w.Ctx.EventManager().Events(); len(evs) >= nBefore {
